@@ -1,8 +1,8 @@
 SPECIFICATION Spec
 CONSTANTS
   FullLen = 4
-  SmallLen = 6
-  IdxRows = 5
+  SmallLen = 5
+  IdxRows = 4
   IdxLen = 3
   GraphN = 6
   LemmaN = 4
